@@ -157,6 +157,8 @@ def run(R):
         n = R.rng.choice([1, 2, 3, 4, 5, 6, 8, 12, 40, 65, 100, 129])
         if t % 40 == 39:          # many alternatives and a large electorate
             m, n = R.rng.choice([14, 25, 40]), R.rng.choice([50, 120])
+        if t in (5, 105):         # more alternatives than a byte can count (ranks up to 300), a handful of voters
+            m, n = R.rng.choice([257, 300]), R.rng.choice([3, 5])
         P = V.structured_profile(R.rng, n, m) if R.rng.random() < 0.5 else V.rand_profile(R.rng, n, m)
         items.append({"P": P, "m": m, "zero": R.rng.random() < 0.5, "seeds": [R.rng.randrange(10 ** 6) for _ in range(3)]})
     run_items(R, items)
